@@ -55,3 +55,12 @@ func C18pack(p *load.Program, run *report.Run) {
 	lints.OrPack(p, run, []string{"sha2pc"}, nil)
 	run.Floor("or-pack-sites", 2)
 }
+
+// OTwindows: the batch-window rule over the OT package (shared by C02, C06 and C15:
+// a misaligned window breaks the transfer, the correlation and the honest run of the
+// consistency check alike).
+func OTwindows(p *load.Program, run *report.Run) {
+	run.Rule("window-alignment", "inside a stride loop (i += W) over a batch every batch-sized sequence is addressed relative to the window (index or slice bound depending on i); scratch buffers of constant length are exempt")
+	lints.WindowAlignment(p, run, []string{"ot"}, nil)
+	run.Floor("stride-loops", 6)
+}
